@@ -1,7 +1,9 @@
 #!/bin/bash
-# usage: tools/try_mutant.sh <sed-expr> <file-relative-to-repo> <prop> [check args]   (applies, runs, reverts)
+# usage: tools/try_mutant.sh <sed-expr> <file-relative-to-repo> <prop> [check args]   (applies, runs, restores the file)
 set -u
 expr="$1"; file="$2"; prop="$3"; shift 3
-cd /repo && sed -i "$expr" "$file" && git diff --stat | tail -1
+cp /repo/"$file" /tmp/try_mutant_backup.$$ || exit 3
+cd /repo && sed -i "$expr" "$file"
+if cmp -s /repo/"$file" /tmp/try_mutant_backup.$$; then echo "MUTATION DID NOT APPLY"; rm -f /tmp/try_mutant_backup.$$; exit 3; fi
 cd /verif && ./check "$prop" --no-evidence "$@" 2>&1 | grep -v "^WARNING" | cut -c1-250 | tail -8
-cd /repo && git checkout -- "$file"
+cp /tmp/try_mutant_backup.$$ /repo/"$file"; rm -f /tmp/try_mutant_backup.$$
